@@ -55,14 +55,21 @@ def evaluate(sid, checks, tier):
             rc, out = sh(["/venv/bin/python", str(demo)], cwd=str(REPO), timeout=600)
             res["demo_with_change"] = {"exit": rc, "tail": out[-300:]}
         res["checks"] = {}
+        import tempfile
+        import shutil
+        scratch = tempfile.mkdtemp(prefix="vseed_")      # evidence / replays of runs against the broken tree do not belong under /verif
         for c in checks:
             t0 = time.time()
-            rc, out = sh([str(VERIF / "run"), c, tier], cwd=str(VERIF), timeout=7200)
+            rc, out = sh([str(VERIF / "run"), c, tier], cwd=str(VERIF), timeout=7200, env=dict(os.environ, VERIF_OUT=scratch))
             viol = [l for l in out.split("\n") if l.startswith("VIOLATION")]
             detail = [l.strip() for l in out.split("\n") if l.startswith("  ")][:2]
             res["checks"][c] = {"exit": rc, "violation_lines": len(viol), "first": (detail[0][:300] if detail else ""), "wall_s": round(time.time() - t0, 1)}
             print(f"  {sid} -> {c} {tier}: exit {rc}, {len(viol)} VIOLATION lines; {detail[0][:160] if detail else ''}")
     finally:
+        try:
+            shutil.rmtree(scratch, ignore_errors=True)
+        except NameError:
+            pass
         sh(["git", "-C", str(REPO), "apply", "-R", "--whitespace=nowarn", str(patch)])
         sh(["git", "-C", str(REPO), "checkout", "--", "."])
         if not repo_clean():
